@@ -922,7 +922,10 @@ SPEC = Spec(
         "reviewed size-parameter-only shapes). R13-STATE: caches are instance "
         "state: no mutable default argument, no class- or module-level container "
         "that a mapper mutates (canary fixture). "
-        "R13-CHILDREN-OVR also: an element of a child field is passed on unmapped only under the test that it is not an Array. R13-ONCE also: a visit key is looked up in and added to the same table, arrays and function definitions have separate tables."),
+        "R13-CHILDREN-OVR also: an element of a child field is passed on unmapped only under the test that it is not an Array. R13-ONCE also: a visit key is looked up in and added to the same table, arrays and function definitions have separate tables. "
+        "R13-CHILDREN counts a child as handed on only as itself or as an element of itself, not through an attribute computed from it (rec(expr.shape) is not rec(expr.indices)). "
+        "R13-CHILDREN-OVR also: the guard in front of self.rec(v) on a loop element v is isinstance(v, Array) and nothing narrower. "
+        "R13-COLLISION also: every cache insertion with a computed result returns what the cache hands back (directly or through a local returned unchanged)."),
     not_decided=(
         "Visit counts and object identity on concrete exponential-path graphs "
         "(they follow from R13-ONCE but are not measured); 'never creates more "
